@@ -34,6 +34,8 @@ func runC08(w *World, r *Report) {
 	r.Rule("R-C08-2", "mark before fork: Shared(true) on the captured scope precedes the go statement in goByteCode, GoRoutine does not call Shared, and SymbolTable.Shared's ancestor walk has no exit other than the nil parent", 3)
 	r.Rule("R-C08-3", "data.Channel.isOpen is read and written only with the channel's mutex held", 3)
 
+	c08NoNestedAcquire(w, r)
+
 	sp := w.pkg("internal/language/symbols")
 	bp := w.pkg("internal/language/bytecode")
 	dp := w.pkg("internal/language/data")
@@ -932,6 +934,196 @@ func c08Guarded(w *World, r *Report, sp interface{ String() string }) {
 
 					judge(x, fa.X, field, write)
 				}
+			}
+		})
+	}
+}
+
+// ---------------------------------------------------------------------------
+// R-C08-6: a method of SymbolTable that holds the table's lock does not call,
+// on the same table, a method that takes that lock again. sync.RWMutex is not
+// re-entrant: a second RLock behind a waiting writer never returns, and a
+// second Lock never does.
+
+func c08NoNestedAcquire(w *World, r *Report) {
+	r.Rule("R-C08-6", "no nested acquisition: while a method of symbols.SymbolTable holds the table's lock (between its RLock/Lock and the matching release, to the end of the function when the release is deferred) it calls on that same table no method that acquires the lock", 8)
+
+	sp := w.pkg("internal/language/symbols")
+	if sp == nil {
+		r.Anchor("R-C08-6", "package internal/language/symbols")
+
+		return
+	}
+
+	isTable := func(t types.Type) bool {
+		n := namedOf(t)
+
+		return n != nil && n.Obj().Name() == "SymbolTable" && n.Obj().Pkg() == sp.Types
+	}
+
+	fns := w.srcFuncs(sp)
+
+	acquireCall := func(in ssa.Instruction) (recv ssa.Value, ok bool) {
+		c, isCall := in.(*ssa.Call)
+		if !isCall {
+			return nil, false
+		}
+
+		switch callID(c.Common()) {
+		case "internal/language/symbols.SymbolTable.RLock", "internal/language/symbols.SymbolTable.Lock":
+			return c.Call.Args[0], true
+		case "sync.RWMutex.RLock", "sync.RWMutex.Lock":
+			// s.mutex.Lock(): the receiver is &s.mutex
+			if fa, isFA := c.Call.Args[0].(*ssa.FieldAddr); isFA && isTable(fa.X.Type()) {
+				return fa.X, true
+			}
+		}
+
+		return nil, false
+	}
+
+	releaseCall := func(in ssa.Instruction) (recv ssa.Value, ok bool) {
+		c, isCall := in.(*ssa.Call) // a deferred release is not an *ssa.Call: the lock stays held
+		if !isCall {
+			return nil, false
+		}
+
+		switch callID(c.Common()) {
+		case "internal/language/symbols.SymbolTable.RUnlock", "internal/language/symbols.SymbolTable.Unlock":
+			return c.Call.Args[0], true
+		case "sync.RWMutex.RUnlock", "sync.RWMutex.Unlock":
+			if fa, isFA := c.Call.Args[0].(*ssa.FieldAddr); isFA && isTable(fa.X.Type()) {
+				return fa.X, true
+			}
+		}
+
+		return nil, false
+	}
+
+	// alias: the value RLock()/Lock() returns is its receiver
+	root := func(v ssa.Value) ssa.Value {
+		for i := 0; i < 6; i++ {
+			v = resolveLocal(stripValue(v))
+
+			c, ok := v.(*ssa.Call)
+			if !ok {
+				return v
+			}
+
+			switch callID(c.Common()) {
+			case "internal/language/symbols.SymbolTable.RLock", "internal/language/symbols.SymbolTable.Lock":
+				v = c.Call.Args[0]
+			default:
+				return v
+			}
+		}
+
+		return v
+	}
+
+	// methods that acquire the lock of their own receiver (directly or through another such method)
+	acquires := map[*ssa.Function]bool{}
+
+	for changed := true; changed; {
+		changed = false
+
+		for _, fn := range fns {
+			if acquires[fn] || fn.Signature.Recv() == nil || len(fn.Params) == 0 || !isTable(fn.Params[0].Type()) {
+				continue
+			}
+
+			// the lock wrappers themselves are the acquisition, not a nesting
+			switch fn.Name() {
+			case "RLock", "Lock", "RUnlock", "Unlock":
+				continue
+			}
+
+			self := ssa.Value(fn.Params[0])
+
+			allInstrs(fn, func(in ssa.Instruction) {
+				if recv, ok := acquireCall(in); ok && root(recv) == self {
+					acquires[fn] = true
+				}
+
+				if c, ok := in.(*ssa.Call); ok {
+					if cf := calleeFunction(c.Common()); cf != nil && acquires[cf] && len(c.Call.Args) > 0 && root(c.Call.Args[0]) == self {
+						acquires[fn] = true
+					}
+				}
+			})
+
+			if acquires[fn] {
+				changed = true
+			}
+		}
+	}
+
+	for _, fn := range fns {
+		if fn.Signature.Recv() == nil || len(fn.Params) == 0 || !isTable(fn.Params[0].Type()) {
+			continue
+		}
+
+		switch fn.Name() {
+		case "RLock", "Lock", "RUnlock", "Unlock":
+			continue
+		}
+
+		var acqs []ssa.Instruction
+
+		allInstrs(fn, func(in ssa.Instruction) {
+			if _, ok := acquireCall(in); ok {
+				acqs = append(acqs, in)
+			}
+		})
+
+		if len(acqs) == 0 {
+			continue
+		}
+
+		n := 0
+
+		allInstrs(fn, func(in ssa.Instruction) {
+			c, ok := in.(*ssa.Call)
+			if !ok || len(c.Call.Args) == 0 {
+				return
+			}
+
+			cf := calleeFunction(c.Common())
+			if cf == nil || !acquires[cf] {
+				return
+			}
+
+			n++
+
+			key := fnKey(fn) + "|calls " + cf.Name() + " on a table"
+			if n > 1 {
+				key += "#" + sprintInt(n)
+			}
+
+			target := root(c.Call.Args[0])
+			held := ""
+
+			for _, a := range acqs {
+				recv, _ := acquireCall(a)
+				if root(recv) != target {
+					continue
+				}
+
+				reached := pathAvoiding(a, nil, func(i ssa.Instruction) bool {
+					rr, isRel := releaseCall(i)
+
+					return isRel && root(rr) == target
+				}, func(i ssa.Instruction) bool { return i == in })
+
+				if reached != nil {
+					held = w.pos(a.Pos())
+				}
+			}
+
+			if held != "" {
+				r.Violate("R-C08-6", key, w.pos(in.Pos()), cf.Name()+" takes the lock of the table it is called on, and this call is made on a table whose lock this function acquired at "+held+" and still holds: a second RLock behind a waiting writer (or a second Lock) never returns, and every goroutine that needs the table queues behind it")
+			} else {
+				r.Discharge("R-C08-6", key, w.pos(in.Pos()), "called on another table, or after the lock was released")
 			}
 		})
 	}
